@@ -246,7 +246,59 @@ def xml_work(item):
     return acc
 
 
+def long_texts():
+    """beyond the enumerated lengths: gaps of 9 ... 5 000 blanks (spaces, NBSPs, tabs and mixtures) between, before and
+    after words; many words"""
+    out = []
+    for n in (9, 10, 15, 16, 17, 31, 32, 33, 64, 65, 100, 1000, 5000):
+        for unit in (" ", "\xa0", "\t", " \xa0", "\t ", " \n"):
+            gap = (unit * n)[:n]
+            out += ["a" + gap + "b", gap + "a", "a" + gap, "a" + gap + "b" + gap + "c"]
+    out.append(" ".join(f"w{i}" for i in range(3000)))
+    out.append("\xa0".join(f"w{i}" for i in range(3000)))
+    return out
+
+
+def long_text_work(chunk):
+    acc = core.Acc()
+    for s_ in chunk:
+        acc.add_problems(check_text(s_))
+    acc.count("strings", len(chunk))
+    acc.count("long_strings", len(chunk))
+    return acc
+
+
+def big_doc(pad, unit="x\xa0y  z\xa0\xa0w"):
+    """a document of about 9 000 bytes: 400 small elements (every fourth one protected) whose text holds NBSPs, shifted
+    byte by byte through the attribute `pad` so that NBSPs fall on every offset modulo any power-of-two block size"""
+    d = c08.plain()
+    d["name"] = "r"
+    d["attrs"] = [["pad", "p" * pad]]
+    kids = []
+    for i in range(400):
+        k = c08.plain()
+        k["name"] = "literalLayout" if i % 4 == 3 else "q"
+        k["text"] = unit
+        if i % 5 == 0:
+            k["attrs"] = [["k", "v\xa0 w"]]
+        kids.append(k)
+    d["children"] = kids
+    d["nsdecl"] = [["xsi", XSI]]
+    return d
+
+
+def big_doc_work(pads):
+    acc = core.Acc()
+    for pad in pads:
+        acc.add_problems(check_doc(big_doc(pad), {"big_document_pad": pad, "shape": None, "features": []}))
+    acc.count("documents", len(pads))
+    acc.count("big_documents", len(pads))
+    return acc
+
+
 def replay(case):
+    if "big_document_pad" in case:
+        return check_doc(big_doc(case["big_document_pad"]), {"big_document_pad": case["big_document_pad"], "shape": None, "features": []})
     if "text" in case:
         return check_text(case["text"])
     doc = apply(case["shape"], case["features"])
@@ -279,6 +331,9 @@ def explore(tier):
             for lo in range(0, nf, step):
                 items.append(("xml", (doc, d, lo, lo + step)))
     accs = core.pmap(work, items)
+    lt = long_texts()
+    accs += core.pmap(long_text_work, [lt[i:i + 20] for i in range(0, len(lt), 20)])
+    accs += core.pmap(big_doc_work, [list(range(i, i + 4)) for i in range(0, 40, 4)])
     acc = core.merge_all(accs)
     ns = acc.counts.get("strings", 0)
     nd = acc.counts.get("documents", 0)
@@ -293,5 +348,8 @@ def explore(tier):
                 "attribute, a second attribute). All cases distinct by construction; every case except the empty string and the plain "
                 "document exercises the normaliser.",
         "strings": ns, "documents": nd, "max_len": n,
+        "beyond_the_enumeration": "gaps of 9..5 000 blanks of six kinds in four positions, 3 000-word texts; forty 9 000-byte "
+                                  "documents shifted byte by byte",
+        "long_strings": acc.counts.get("long_strings", 0), "big_documents": acc.counts.get("big_documents", 0),
     }
     return acc, cov
